@@ -38,3 +38,20 @@ CHECKS["C11"] = (
     "DESIGN.md#c11",
 )
 NA.pop("C11", None)
+
+CHECKS["C03"] = (
+    "proof",
+    "static analysis: algebraic abstract interpretation (AST -> sympy polynomials over a symbolic tetrahedron) and polynomial normal-form identities against exact simplex integrals",
+    "Proves, for every closed consistently wound triangle surface, every density, centre-of-mass override and frame, that triangles.mass_properties / cross / area, inertia.transform_inertia and Trimesh.moment_inertia_frame compute the exact integrals: ten moment identities on a symbolic tetrahedron, antisymmetry + cyclic invariance per triangle (so interior faces of any decomposition cancel), assembly of centre of mass and inertia, parallel-axis and rotation law from raw second moments, constant-tolerance degenerate guard, and the Trimesh forwarders. Floating-point rounding is outside the claim.",
+    "Trusted: sympy expand/Poly/together; the E3 transfer functions in sa/alg.py; the Dirichlet simplex formula; the chain-decomposition argument in DESIGN.md C03. Assumes generic position for the |volume| < tol.zero branch.",
+    "DESIGN.md#c03",
+)
+NA.pop("C03", None)
+CHECKS["C19"] = (
+    "proof",
+    "static analysis: algebraic abstract interpretation of transformations.py (sin/cos as polynomial symbols), identities modulo s^2+c^2=1; constant-table extraction",
+    "Proves for all angles, axes and points (generic branches) that the 24 Euler conventions of euler_matrix are the products of elementary rotations their names spell, that euler_from_matrix reads the matching entries, that quaternion_from_euler yields unit quaternions of the same rotations, that rotation_matrix is the orthonormal det+1 Rodrigues form fixing its point, that transform_around is conjugation by the translation and that transform_points is homogeneous multiplication in 2D/3D; the convention tables are bijections. Gimbal thresholds, branch selection, arctan2 ranges and compose/decompose are not decided.",
+    "Trusted: sympy normal forms; E3 transfer functions; reduction modulo s^2+c^2=1 by substitution; reference fixed by the convention name (static: R_a3 R_a2 R_a1, rotating: R_a1 R_a2 R_a3).",
+    "DESIGN.md#c19",
+)
+NA.pop("C19", None)
